@@ -13,6 +13,7 @@ def run(rep, tier, seed):
     cfgs = nttcheck.ntt_configs(tier, seed)
     res = nttcheck.run_parallel('intt', cfgs)
     nttcheck.record(rep, 'intt', res, nttcheck.describe_ntt, 'idft-bounded-shape')
+    nttcheck.threshold_notes(rep, 'ntt')
     rep.floor('configurations', len(res), 1000 if tier == 'quick' else 20000)
     W = NTTWorld('avx2')
     for lg in range(0, 5 if tier == 'quick' else 7):
